@@ -65,6 +65,24 @@ func Churn(n int) {
 	}
 }
 
+// ChurnSmall floods the size classes closures and reflect.MakeFunc values live in (16..64 bytes), so that
+// slots freed by the last collection are reused and overwritten deterministically.
+func ChurnSmall(n int) {
+	var keep [][]byte
+	for i := 0; i < n; i++ {
+		for _, sz := range []int{16, 32, 48, 64} {
+			b := make([]byte, sz)
+			for j := range b {
+				b[j] = 0xAB
+			}
+			if i%1024 == 0 {
+				keep = append(keep, b)
+			}
+		}
+	}
+	runtime.KeepAlive(keep)
+}
+
 // GC runs two collections (finalizers / sweeping of the first complete in the second).
 func GC() {
 	runtime.GC()
